@@ -13,12 +13,14 @@ from . import core
 PID = "C13"
 GEN = os.path.join(core.VERIF, "gen", "blas_dispatch_to_coq.py")
 GEN_V = os.path.join(core.COQ, "Model", "BlasC13Gen.v")
+GEN3_V = os.path.join(core.COQ, "Model", "BlasC13L3Gen.v")
+SITES3 = os.path.join(core.BUILD, "c13_sites_l3.json")
 SITES = os.path.join(core.BUILD, "c13_sites.json")
 DRIVER = os.path.join(core.BIN, "driver_c13")
 # call sites of the hand-transcribed level-3 dispatch (Model/BlasC13L3.v); gemm/gemv sites come from the translator
 L3_SITES = {"601": "syrk.hpp:24", "602": "syrk.hpp:26", "603": "syrk.hpp:30", "604": "syrk.hpp:32",
             "701": "herk.hpp:124", "702": "herk.hpp:126", "703": "herk.hpp:129", "704": "herk.hpp:130",
-            "711": "herk.hpp:134", "712": "herk.hpp:136", "714": "herk.hpp:140",
+            "711": "herk.hpp:134", "712": "herk.hpp:136", "713": "herk.hpp:140",
             "801": "trsm.hpp:92", "802": "trsm.hpp:93", "803": "trsm.hpp:94", "804": "trsm.hpp:95", "811": "trsm.hpp:98",
             "812": "trsm.hpp:99", "821": "trsm.hpp:102", "831": "trsm.hpp:106", "832": "trsm.hpp:107"}
 WORK = os.path.join(core.BUILD, "work", PID)
@@ -34,8 +36,9 @@ def regenerate():
     mod = importlib.util.module_from_spec(spec)
     spec.loader.exec_module(mod)
     try:
-        sites = mod.main(core.INCLUDE, GEN_V, SITES)
-        return True, "regenerated", sites
+        sites = dict(mod.main(core.INCLUDE, GEN_V, SITES))
+        sites.update(mod.main_l3(core.INCLUDE, GEN3_V, SITES3))
+        return True, "regenerated (gemm.hpp gemv.hpp syrk.hpp herk.hpp trsm.hpp)", sites
     except mod.TranslatorError as ex:
         return False, "translator: %s" % ex, {}
     except (OSError, ValueError, IndexError) as ex:
@@ -47,7 +50,7 @@ def build_all(res):
     problems = []
     ok_t, msg_t, sites = regenerate()
     if not ok_t:
-        problems.append(("translator:gemm.hpp/gemv.hpp-no-longer-in-the-dispatch-table-grammar", msg_t))
+        problems.append(("translator:a-dispatch-ladder-of-gemm/gemv/syrk/herk/trsm.hpp-is-no-longer-in-the-table-grammar", msg_t))
     coq = core.coq_check_property(PID)
     core.proof_coverage(res, coq)
     ok_d, log_d = core.ensure_driver_for("c13", "ExtractC13.v", ["c13_zu.ml", "c13_level1.ml", "c13_level3.ml", "c13_driver.ml"], "driver_c13",
@@ -318,8 +321,9 @@ def run(tier, seed, replay=None):
         res.violation(path, step, no_input=True)
     if any(s.startswith("build:") for s, _ in b["problems"]):
         return res.finish()
-    exes, sites, coq = b["exes"], dict(b["sites"]), b["coq"]
-    sites.update(L3_SITES)
+    exes, coq = b["exes"], b["coq"]
+    sites = dict(L3_SITES)            # fallback names; the translator's own table (file:line of this run) takes precedence
+    sites.update(b["sites"])
     if replay:
         block = "".join(l for l in open(replay) if not l.startswith("#"))
         bad = []
